@@ -217,7 +217,11 @@ TEXTS['C13'] = {
             "previous grant) is never refused; the scheduler's total equals the sum of the waits of the tokens currently "
             "scheduled and a refused read is told to wait exactly that sum including its own; a scheduled token is granted on "
             "its next attempt; a stream whose transfer failed raises that error at the next loop test, does not sleep again and "
-            "leaves the queue. Not proved: the interval bound '1.25 x max x T + burst' for mixed traffic — the oracle measures "
+            "leaves the queue; window bounds: over any stretch of first-attempt grants the bytes are at most (1/alpha) x max x "
+            "elapsed time (the statement's 1.25 x max x T, no burst term), and reads that had to wait are granted no earlier than a "
+            "FIFO server of rate max would finish them (so k waiting reads of amt bytes are not all granted before k x amt / max), "
+            "assuming each refused stream retries no earlier than told. Not proved: the combined bound '1.25 x max x T + burst' for "
+            "traffic mixing both kinds — the oracle measures "
             "windowed byte counts, waits and starvation of the real classes for 1-8 streams in virtual time under the "
             "deterministic scheduler (adversarial think times, late wake-ups, abandoned waiters). Defect D4 was found and "
             "repaired; D5 (infinite rate after simultaneous scheduled releases) is a recorded finding.",
